@@ -40,6 +40,8 @@ JOBS = {
     "enc-attr": ("encoder", "C(=O)N", {"attribute": True}),
     "enc-oddfused-a": ("encoder", "c12c3ccc1cc2ccc3", {}),            # greedy matching is not perfect: augmentation runs
     "enc-oddfused-b": ("encoder", "c1cc2ccc3ccc1c23", {}),
+    "enc-two-rings-a": ("encoder2", ("C1CC1", "N1CCCCCCCCCCCCCCCCCC1"), {}),      # two calls in one thread, growing index values
+    "enc-two-rings-b": ("encoder2", ("O1CCCCC1", "C(CCCCCCCCCCCCCCCCCCCCC)N"), {}),
     "dec-short-a": ("decoder", "[Ge]", {}),
     "dec-short-b": ("decoder", "[Ge][Ge]", {}),
     "dec-chg-a": ("decoder", "[N+1][C]", {}),
@@ -49,7 +51,8 @@ PAIRS = [("dec-Si-a", "dec-Si-b"), ("dec-Si-a", "dec-SiH"), ("dec-ring-a", "dec-
          ("dec-branch-frag", "dec-branch2"), ("enc-ring-Si", "dec-ring-b"), ("enc-pyridine", "enc-pyrrole"),
          ("dec-attr-a", "dec-attr-b"), ("enc-strict-fail", "dec-Si-a"), ("enc-attr", "dec-attr-b"),
          ("dec-short-a", "dec-short-b"), ("dec-chg-a", "dec-chg-b"), ("dec-Si-a", "dec-Si-a"),
-         ("enc-oddfused-a", "enc-oddfused-a"), ("enc-oddfused-a", "enc-oddfused-b"), ("enc-pyridine", "enc-pyridine")]
+         ("enc-oddfused-a", "enc-oddfused-a"), ("enc-oddfused-a", "enc-oddfused-b"), ("enc-pyridine", "enc-pyridine"),
+         ("enc-two-rings-a", "enc-two-rings-b"), ("enc-two-rings-a", "enc-two-rings-a")]
 SHORT = [("dec-short-a", "dec-short-b"), ("dec-chg-a", "dec-chg-b"), ("dec-Si-b", "dec-Si-b")]
 TRIPLES = [("dec-short-a", "dec-short-b", "dec-Si-b"), ("dec-chg-a", "dec-chg-b", "enc-pyrrole")]
 NCHUNK = 8
@@ -91,8 +94,27 @@ _SF = None
 _SERIAL = {}
 
 
+POST_PROBES = [("encoder", "C1CCCCCCCCCCCCCCCCCC1(CCCCCCCCCCCCCCCCCCC)F"), ("decoder", "[Si][C][Ge][Ring1][Ring1][N+1]"),
+               ("encoder", "c1cc[nH]c1")]
+_POST_REF = []
+
+
+def post_probe():
+    out = []
+    for kind, arg in POST_PROBES:
+        try:
+            out.append(getattr(_SF, kind)(arg))
+        except Exception as e:
+            out.append("raises " + type(e).__name__)
+    return out
+
+
 def make_job(name):
     kind, arg, kw = JOBS[name]
+    if kind == "encoder2":
+        def job2():
+            return tuple(_SF.encoder(a) for a in arg)
+        return job2
     f = getattr(_SF, kind)
 
     def job():
@@ -115,6 +137,8 @@ def worker_init():
         except Exception:
             pass
     H.restore()
+    H.restore()
+    _POST_REF[:] = post_probe()
     for name in JOBS:
         H.restore()
         try:
@@ -138,10 +162,30 @@ def shared_signature():
 
 def run_one(names, segments, r, tail=None, scope=""):
     jobs = [make_job(n) for n in names]
+    import sys as _sys
+    g0 = (_sys.getrecursionlimit(), _sys.getswitchinterval())
     res, steps, trace = S.execute(jobs, segments, H.restore, tail)
+    g1 = (_sys.getrecursionlimit(), _sys.getswitchinterval())
+    if g1 != g0:
+        # interpreter-wide settings are shared by every thread: a call that leaves them changed has leaked state into
+        # every other call (e.g. which nesting depth raises 'nested too deeply')
+        _sys.setrecursionlimit(g0[0])
+        _sys.setswitchinterval(g0[1])
+        r.violation("interpreter-global-state-changed",
+                    {"jobs": list(names), "segments": [list(s) for s in segments], "tail": list(tail) if tail else None,
+                     "granularity": S._INSTALLED[0]},
+                    "(recursion limit, switch interval) was %r before and %r after this schedule" % (g0, g1))
     r.evaluations += 1
     r.transitions += len(trace) + 1
     want = [_SERIAL[n] for n in names]
+    after = post_probe()
+    if after != _POST_REF:
+        k = [i for i, (a, b) in enumerate(zip(after, _POST_REF)) if a != b][0]
+        r.violation("library-left-damaged-after-concurrent-calls",
+                    {"jobs": list(names), "segments": [list(s) for s in segments], "tail": list(tail) if tail else None,
+                     "granularity": S._INSTALLED[0]},
+                    "after this schedule %s(%r) returns %r; on a fresh library (and after every serial run) it returns %r" % (
+                        POST_PROBES[k][0], POST_PROBES[k][1], after[k], _POST_REF[k]))
     if any(isinstance(x, tuple) and x and x[0] == "hang" for x in res):
         bad = [i for i, x in enumerate(res) if isinstance(x, tuple) and x and x[0] == "hang"][0]
         r.violation("hang-under-schedule:" + JOBS[names[bad]][0],
@@ -187,7 +231,7 @@ def run(task):
                     run_one(names, [(first, k), (other, k2), (first, None)], r, tail=[other])
                     r.states += 1
         if c == 0:
-            r.sample({"scope": scope, "jobs": [JOBS[x][:2] for x in names], "events_per_thread_serial": list(steps0),
+            r.sample({"scope": scope, "jobs": [list(JOBS[x][:2]) for x in names], "events_per_thread_serial": list(steps0),
                       "example_schedule": [[first, L // 2], [other, None]]}, 1)
         r.extra["max_events_per_call"] = max(steps0)
     else:
